@@ -102,6 +102,10 @@ class ExchangeMove(
             # select every atom, and a failed or rejected trial would delete them all
             return []
 
+        # `extend` creates on the system every per-atom array that only the added
+        # species carries (filled with zeros for the atoms already there)
+        array_names = set(context.atoms.arrays)
+
         context.atoms.extend(self.to_add_atoms)
         context._moving_indices = np.arange(len(context.atoms))[
             -len(self.to_add_atoms) :
@@ -109,7 +113,13 @@ class ExchangeMove(
 
         if not super().attempt_displacement(context):
             del context.atoms[context._moving_indices]
+
+            for name in set(context.atoms.arrays) - array_names:
+                del context.atoms.arrays[name]
+
             return []
+
+        context.save_array_names(array_names)
 
         return context._moving_indices
 
